@@ -246,9 +246,46 @@ def elevation_kernel_case(p):
     return []
 
 
+def refine_kernel_case(p):
+    """refine_center / center_of_mass on a small map at any intensity scale: the refined position is the centre plus the centre
+    of mass of the minimum-subtracted (2r+1)^2 neighbourhood; the definition does not depend on the unit of the values"""
+    from libertem_blobfinder.base import correlation as bc
+    m64 = np.asarray(p["map"], dtype=np.float64) * p["scale"]
+    m = m64.astype(p["dtype"])
+    y, x = p["center"]
+    r = min(2, y, x, m.shape[0] - y - 1, m.shape[1] - x - 1)
+    try:
+        got = bc.refine_center((y, x), 2, m)
+    except Exception as e:
+        return [f"refine_center raised {type(e).__name__}: {e}"]
+    if r <= 0:
+        want = (float(y), float(x))
+    else:
+        cut = m.astype(np.float64)[y - r:y + r + 1, x - r:x + r + 1]
+        cut = cut - cut.min()
+        if cut.sum() == 0:
+            return []
+        yy, xx = np.mgrid[0:2 * r + 1, 0:2 * r + 1]
+        want = (y + float((cut * yy).sum() / cut.sum()) - r, x + float((cut * xx).sum() / cut.sum()) - r)
+    if max(abs(float(got[0]) - want[0]), abs(float(got[1]) - want[1])) > 2e-4:
+        return [f"refine_center at {(y, x)} on a {m.shape} {p['dtype']} map scaled by {p['scale']:g}: {tuple(float(v) for v in got)}, "
+                f"centre + centre of mass of the minimum-subtracted neighbourhood is {want}"]
+    if r > 0:
+        try:
+            cm = bc.center_of_mass((m[y - r:y + r + 1, x - r:x + r + 1] - m[y - r:y + r + 1, x - r:x + r + 1].min()))
+        except Exception as e:
+            return [f"center_of_mass raised {type(e).__name__}: {e}"]
+        if max(abs(float(cm[0]) - (want[0] - y + r)), abs(float(cm[1]) - (want[1] - x + r))) > 2e-4:
+            return [f"center_of_mass of a {2 * r + 1}x{2 * r + 1} array scaled by {p['scale']:g}: {tuple(float(v) for v in cm)} "
+                    f"expected {(want[0] - y + r, want[1] - x + r)}"]
+    return []
+
+
 def run_case(kind, p):
     if kind == "elevation_kernel":
         return elevation_kernel_case(p)
+    if kind == "refine_kernel":
+        return refine_kernel_case(p)
     rng = np.random.default_rng(p["seed"])
     pattern = impl.pattern_from(p["pattern"])
     c = pattern.get_crop_size()
@@ -311,3 +348,13 @@ def search(ctx, boost=1, focus=()):
              "above": float((0, 1, 2, -1, 0, -0.5)[k % 6 if (k // 6) % 2 else k % 3])}   # negative: a pixel lies above the height -> floor 0
         ctx.oracle_case("elevation_kernel", q, run_case("elevation_kernel", q), nontrivial=off != (0.0, 0.0))
         ctx.count("elevation_kernel")
+    # the refinement kernels at every intensity scale (detector counts, normalised images, physical units such as ampere)
+    for k in range(n):
+        h, w = int(rng.integers(3, 10)), int(rng.integers(3, 10))
+        m = rng.uniform(0, 1, (h, w)) + rng.uniform(0, 5)
+        cy, cx = int(rng.integers(0, h)), int(rng.integers(0, w))
+        m[cy, cx] = m.max() + rng.uniform(0.1, 3)
+        q = {"map": m, "dtype": ["float32", "float64"][(k // 7) % 2], "center": [cy, cx],
+             "scale": [1.0, 1e-3, 1e3, 1e-7, 1e-10, 1e6, 1e-12][k % 7]}
+        ctx.oracle_case("refine_kernel", q, run_case("refine_kernel", q), nontrivial=q["scale"] != 1.0)
+        ctx.count("refine_kernel")
